@@ -73,7 +73,8 @@ FrameDevs(l0, e) ==
   IN  One(changed = {}, l0, "C13", <<e.op, "modified a slot outside its frame", changed>>, Sig(e, "frame")) \o
       One(~Has(e, "s_unchanged") \/ e.s_unchanged, l0, "C13", <<e.op, "modified its scalar argument">>, Sig(e, "scalar-arg")) \o
       One(~Has(e, "inputs_unchanged") \/ e.inputs_unchanged, l0, "C13", <<e.op, "modified its input slices">>, Sig(e, "slice-arg")) \o
-      One(~Has(e, "buf_unchanged") \/ e.buf_unchanged, l0, "C13", <<e.op, "modified its input buffer">>, Sig(e, "buffer-arg"))
+      One(~Has(e, "buf_unchanged") \/ e.buf_unchanged, l0, "C13", <<e.op, "modified its input buffer">>, Sig(e, "buffer-arg")) \o
+      One(~Has(e, "tails_unchanged") \/ e.tails_unchanged, l0, "C13", <<e.op, "wrote into the spare capacity of the caller's slice">>, Sig(e, "capacity"))
 
 (* C19: batch helpers *)
 BatchDevs(l0, e) ==
